@@ -287,6 +287,22 @@ fn main() {
         Some("a85hex") => cmd_a85hex(args.get(2).and_then(|s| s.parse().ok()).unwrap_or(5)),
         Some("a85hex-roundtrip") => cmd_a85hex_roundtrip(args.get(2).and_then(|s| s.parse().ok()).unwrap_or(4)),
         Some("fmt") => cmd_fmt(),
+        Some("xrefstm") => {
+            // xrefstm <w0> <w1> <w2> <first> <count> <datalen>: run XRefStream::parse + to_xref_entries on a synthetic stream dictionary
+            use oxidize_pdf::parser::objects::PdfArray;
+            use oxidize_pdf::parser::xref_stream::XRefStream;
+            let v: Vec<i64> = args[2..].iter().map(|x| x.parse().unwrap()).collect();
+            let mut d = PdfDictionary::new();
+            d.insert("W".to_string(), PdfObject::Array(PdfArray(vec![PdfObject::Integer(v[0]), PdfObject::Integer(v[1]), PdfObject::Integer(v[2])])));
+            d.insert("Index".to_string(), PdfObject::Array(PdfArray(vec![PdfObject::Integer(v[3]), PdfObject::Integer(v[4])])));
+            d.insert("Size".to_string(), PdfObject::Integer(v[4]));
+            let data = vec![1u8; v[5] as usize];
+            let r = panic::catch_unwind(|| {
+                let mut cur = std::io::Cursor::new(Vec::<u8>::new());
+                XRefStream::parse(&mut cur, d, data, &ParseOptions::default()).and_then(|x| x.to_xref_entries()).map(|e| e.len())
+            });
+            println!("{{\"cmd\":\"xrefstm\",\"args\":{:?},\"result\":{}}}", v, js(&format!("{:?}", r.map_err(|_| "PANIC"))));
+        }
         Some("labels") => cmd_labels(args.get(2).and_then(|s| s.parse().ok()).unwrap_or(5000)),
         Some("lru") => cmd_lru(args.get(2).and_then(|s| s.parse().ok()).unwrap_or(6)),
         Some("decode") => {
